@@ -22,8 +22,8 @@ import traceback
 from . import prng
 
 VERIF = pathlib.Path(__file__).resolve().parent.parent
-REPLAYS = VERIF / 'replays'
-EVIDENCE = VERIF / 'evidence'
+REPLAYS = pathlib.Path(os.environ.get('VERIF_REPLAY_DIR') or (VERIF / 'replays'))
+EVIDENCE = pathlib.Path(os.environ.get('VERIF_EVIDENCE_DIR') or (VERIF / 'evidence'))
 KNOWN = VERIF / 'known_findings.json'
 
 
@@ -231,7 +231,7 @@ def minimise(engine, plan, cls, *, max_steps=150, time_budget=90.0):
 
 
 def write_replay(engine, plan, cls, digest, tag):
-    REPLAYS.mkdir(exist_ok=True)
+    REPLAYS.mkdir(parents=True, exist_ok=True)
     name = f"{cls[0]}-{tag}-{hashlib.sha1(repr(cls).encode()).hexdigest()[:8]}.json"
     path = REPLAYS / name
     path.write_text(json.dumps({
@@ -274,7 +274,7 @@ def replay_fresh(path):
 # ----------------------------------------------------------------------------------------
 
 def write_evidence(prop, tier, seed, engine, results, wall_s, *, violations, known_hits, harness, extra=None):
-    EVIDENCE.mkdir(exist_ok=True)
+    EVIDENCE.mkdir(parents=True, exist_ok=True)
     stats = collections.Counter()
     sigs = set()
     nontrivial = 0
